@@ -115,7 +115,7 @@ fn hammer_combos() -> Vec<(Kind, Eng, bool)> {
 fn hammer_program(kind: Kind, eng: Eng, dec: bool, seed: u64, reps: u8, variant: u64) -> Program {
     let mut rng = gen::Xs::new(seed ^ crate::runner::hash_of(&(kind, eng, dec, variant)));
     // two kinds of work inside the family's natural region: low rate wants k <= r, high rate k >= r
-    let mut spec = |rng: &mut gen::Xs| {
+    let spec = |rng: &mut gen::Xs| {
         let a = 2 + rng.below(6);
         let b = a + rng.below(6);
         let (k, r) = match kind {
